@@ -179,6 +179,8 @@ class Sched:
         self.objects = 0
         self.spin_yields = 0
         self.outcome_hint = None
+        self.debug = False
+        self.switch_log = []
 
     # ------------------------------------------------------------------ choices
     def choose(self, n, kind):
@@ -193,6 +195,12 @@ class Sched:
             raise Divergence(f"choice point {idx} ({kind}) offers {n} options, recorded choice {c}")
         if c:
             self.used[kind] += 1
+            if self.debug:
+                import traceback as _tb  # noqa: PLC0415
+
+                fr = [f for f in _tb.extract_stack(limit=16) if "/repo/" in f.filename or "/checks/" in f.filename]
+                self.switch_log.append((round(self.clock, 2), "DEVIATION", idx, kind, c, self.current.name[-28:] if self.current else None,
+                                        [f"{f.name}:{f.lineno}" for f in fr[-3:]]))
         self.trace.append((kind, n, c))
         return c
 
@@ -236,6 +244,12 @@ class Sched:
             return
         self.current = nxt
         self.switches += 1
+        if self.debug:
+            import traceback as _tb  # noqa: PLC0415
+
+            fr = [f for f in _tb.extract_stack(limit=14) if "/repo/" in f.filename]
+            self.switch_log.append((round(self.clock, 2), cur.name[-28:], "->", nxt.name[-28:], cur.state, cur.why,
+                                    (fr[-1].name + ":" + str(fr[-1].lineno)) if fr else ""))
         nxt.baton.release()
         cur.baton.acquire()
         if cur.kill or self.ending:
@@ -392,12 +406,13 @@ class Sched:
         return a
 
 
-def run(driver, deviations=None, budgets=None, **opts):
+def run(driver, deviations=None, budgets=None, debug=False, **opts):
     """Run one execution of driver(sched) under a fresh scheduler; returns the Sched with outcome set."""
     global SCHED
     if SCHED is not None:
         raise HarnessError("nested executions are not supported")
     sched = Sched(deviations, budgets, **opts)
+    sched.debug = debug
     SCHED = sched
     try:
         t = VThread(sched, driver, (sched,), name="driver")
@@ -950,3 +965,31 @@ def resolve(qualnames):
         except (ImportError, AttributeError, KeyError):
             missing.append(q)
     return found, missing
+
+
+def trace_spin_loops(module_names):
+    """Backward-jump (spin-wait) detection for every function of the given modules, without making their lines
+    scheduling points.  Without it a `while not flag: pass` loop in an untraced function would spin for ever,
+    because no other virtual thread can run while it does."""
+    import importlib  # noqa: PLC0415
+    import inspect  # noqa: PLC0415
+
+    fns = []
+    for mn in module_names:
+        try:
+            mod = importlib.import_module(mn)
+        except ImportError:
+            continue
+        for obj in vars(mod).values():
+            if inspect.isclass(obj) and obj.__module__ == mn:
+                for v in vars(obj).values():
+                    if callable(v) or isinstance(v, (property, staticmethod, classmethod)):
+                        fns.append(v)
+            elif inspect.isfunction(obj) and obj.__module__ == mn:
+                fns.append(obj)
+    return trace_functions(fns, lines=False, jumps=True)
+
+
+SPIN_MODULES = ["secsgem.common.tcp_connection", "secsgem.common.tcp_server_connection", "secsgem.common.tcp_client_connection",
+                "secsgem.common.serial_connection", "secsgem.common.protocol_dispatcher", "secsgem.common.byte_queue",
+                "secsgem.common.protocol", "secsgem.hsms.protocol", "secsgem.secsi.protocol", "secsgem.gem.handler"]
